@@ -242,7 +242,11 @@ func c07Plugin(g *c07Gates) *schema.CallableSchema {
 	sigData := schema.NewScopeSchema(schema.NewObjectSchema("sigdata", map[string]*schema.PropertySchema{"n": intP()}))
 	sig := schema.NewCallableSignal[*c07StepData, map[string]any]("sig", sigData, nil,
 		func(_ context.Context, sd *c07StepData, _ map[string]any) {})
-	handler := func(_ context.Context, _ *c07StepData, input map[string]any) (string, any) {
+	// step "t" keeps its per-run data in an INTERFACE-typed StepData and has no initialiser: its signal handler
+	// receives the nil interface (D65: the type assertion on it used to panic in a goroutine without recover)
+	sigAny := schema.NewCallableSignal[any, map[string]any]("sig", sigData, nil,
+		func(_ context.Context, sd any, _ map[string]any) {})
+	handler := func(_ context.Context, input map[string]any) (string, any) {
 		tok, _ := input["tok"].(int64)
 		beh, _ := input["beh"].(string)
 		slow, _ := input["slow"].(bool)
@@ -262,16 +266,21 @@ func c07Plugin(g *c07Gates) *schema.CallableSchema {
 			panic("step handler panics")
 		}
 	}
-	mk := func(id string) schema.CallableStep {
-		return schema.NewCallableStepWithSignals[*c07StepData, map[string]any](id, in,
-			map[string]*schema.StepOutputSchema{
-				"success": schema.NewStepOutputSchema(okOut, nil, false),
-				"error":   schema.NewStepOutputSchema(errOut, nil, true),
-			},
-			map[string]schema.CallableSignal{"sig": sig}, nil, nil,
-			func() *c07StepData { return &c07StepData{} }, handler)
+	outs := func() map[string]*schema.StepOutputSchema {
+		return map[string]*schema.StepOutputSchema{
+			"success": schema.NewStepOutputSchema(okOut, nil, false),
+			"error":   schema.NewStepOutputSchema(errOut, nil, true),
+		}
 	}
-	return schema.NewCallableSchema(mk("s"), mk("t"))
+	s := schema.NewCallableStepWithSignals[*c07StepData, map[string]any]("s", in, outs(),
+		map[string]schema.CallableSignal{"sig": sig}, nil, nil,
+		func() *c07StepData { return &c07StepData{} },
+		func(ctx context.Context, _ *c07StepData, input map[string]any) (string, any) { return handler(ctx, input) })
+	t := schema.NewCallableStepWithSignals[any, map[string]any]("t", in, outs(),
+		map[string]schema.CallableSignal{"sig": sigAny}, nil, nil,
+		nil,
+		func(ctx context.Context, _ any, input map[string]any) (string, any) { return handler(ctx, input) })
+	return schema.NewCallableSchema(s, t)
 }
 
 // ---------------------------------------------------------------------------------------
@@ -699,6 +708,9 @@ func genAtpsrv(r *Rng, tier string, emit func(*sx.Node)) {
 		emit(c07Script(start, c07WS("a", "s", 1, "undecl", true), end, c07Rel(1)))
 	}
 	emit(c07Script(start, c07WS("a", "s", 1, "ok", false), sx.L(sx.A("sig"), sx.S("a"), sx.S("nosuchsignal"), sx.B(true)), sx.A("eof")))
+	// D65: a VALID signal for a run of step "t" (interface-typed step data, no initialiser), before and after the step ended
+	emit(c07Script(start, c07WS("b", "t", 1, "ok", true), sx.L(sx.A("sig"), sx.S("b"), sx.S("sig"), sx.B(true)), c07Rel(1), sx.A("eof")))
+	emit(c07Script(start, c07WS("b", "t", 1, "ok", false), sx.L(sx.A("sig"), sx.S("b"), sx.S("sig"), sx.B(true)), sx.A("done")))
 	emit(c07Script(start, c07WS("a", "s", 1, "ok", false), c07WS(c07NoRun, "s", 2, "ok", false), sx.A("eof")))
 	emit(c07Script(start, c07WS("a", "s", 1, "ok", false), sx.L(sx.A("unk"), sx.I(9), sx.A("norun")), sx.A("eof")))
 	{
